@@ -1114,6 +1114,7 @@ class Interp:
             self.ctx.trusted.add(f"external:{target} returns the contract's ghost object `{cur.externals[target]}`")
             efr = Frame(eng.contract_module(cur), dict(self.ctx.ghost))
             efr.locals["args"] = tuple(args)      # (self first, for methods)
+            efr.locals["kwargs"] = dict(kwargs)
             return self.eval(eng.parse_clause(cur.externals[target]), efr)
         # modular: callee under contract is replaced by its contract
         c = eng.contract_for_call(self, target)
